@@ -304,8 +304,8 @@ pub fn sgr_fold(attr: &Cell, reverse_default: bool, list: &[u32]) -> Cell {
             39 => a.fg = "default".into(),
             40..=47 => a.bg = NAMES[(c - 40) as usize].into(),
             49 => a.bg = "default".into(),
-            90..=97 => a.fg = format!("bright{}", NAMES[(c - 90) as usize]),
-            100..=107 => a.bg = format!("bright{}", NAMES[(c - 100) as usize]),
+            90..=97 => a.fg = format!("bright{}", NAMES[(c - 90) as usize]).into(),
+            100..=107 => a.bg = format!("bright{}", NAMES[(c - 100) as usize]).into(),
             38 | 48 => {
                 // the selector is consumed; 5 consumes one more; 2 consumes three more
                 if i < list.len() {
@@ -328,9 +328,9 @@ pub fn sgr_fold(attr: &Cell, reverse_default: bool, list: &[u32]) -> Cell {
                     }
                     if let Some(col) = colour {
                         if c == 38 {
-                            a.fg = col;
+                            a.fg = col.into();
                         } else {
-                            a.bg = col;
+                            a.bg = col.into();
                         }
                     }
                 }
@@ -400,9 +400,9 @@ fn draw(s: &mut Snap, text: &str, notes: &mut Notes) {
                     None
                 };
                 if let Some((ty, tx)) = target {
-                    let mut d = s.cells[ty][tx].data.clone();
+                    let mut d = s.cells[ty][tx].data.to_string();
                     d.push(ch);
-                    s.cells[ty][tx].data = d.nfc().collect();
+                    s.cells[ty][tx].data = d.nfc().collect::<String>().into();
                 }
             }
             Class::ZeroOther | Class::Unprintable => {
